@@ -9,7 +9,10 @@
            stamps, snapshot_state as checkpoint, a fresh node + apply_recovered_state as restart.
 4. TV    : NodeClockTrace: the stamp of every delta issued must exceed every stamp the running
            node has observed for the key and never repeat per key; the stamps the node holds
-           must equal the specification's after every step.
+           must equal the specification's after every step; the payload a key serves must be that
+           of the write whose stamp is held (memv); a peer that merges everything the node issued
+           or received, newest first, must end with the greatest stamp and its payload per key.
+           Logical times beyond 2^32 travel in the trace shifted down (order and successor kept).
 """
 import os
 from lib import vlib
@@ -43,7 +46,8 @@ def run(tier):
     runs, bad = vlib.validate_runs(rep, "NodeClockTrace", "NodeClockTrace", tr, wd, "random", describe=describe)
     nt = sum(1 for evs in runs.values() if any(e["a"] == "recover" for e in evs))
     rep.cov["distinct_nontrivial"] = nt + len(scn)
-    rep.cov["rule"] = ("a case is one life of a real node: writes, remote deltas with chosen stamps (1..1000), checkpoints, "
+    rep.cov["rule"] = ("a case is one life of a real node (every third under the causal consistency level): writes, remote deltas with chosen "
+                       "stamps (1..1000, one in six beyond 2^32), checkpoints, a peer merging everything at the end, "
                        "crash, recovery, more writes; non-trivial = contains at least one crash + recovery followed by a write")
     rep.cov["exhaustive"] = True
     rep.cov["explanation"] = "exhaustive over the SimNodeClock model (2 keys, stamps <= 3, <= 2-3 writes, 1-2 crashes); random lives are samples"
